@@ -31,6 +31,10 @@ DECIDES += (' BORROW (seventh round, rules/s7C35.py): the result of a borrowed-r
             'is emitted, per emitted #if arm, on every path. '
             'SETUP: while an unmanaged temp owns a reference (GOTREF emitted) child expression code and error exits are emitted only under an error label created by the function, '
             'and that label is placed with a release of the temp on every path on which it may have been used.')
+DECIDES += (' ERRAPI / HELD (eighth round, rules/s8C35.py): the error-exit emitters of CCodeWriter are derived from Code.py (closure of the methods that forward a position to error_goto: '
+            'error_goto_if*, put_error_if_neg, put_error_if_unbound, the trace emitters, wrappers added later) and used by BORROW, SETUP and HELD; HELD: on every path through a generator function no such exit, '
+            'no helper method of the node that emits one, no fallible child code and no conditional jump to a label without a release is emitted under the surrounding error label between the last use of '
+            'an unmanaged temp and the release the function emits for it; an exit that mentions the temp is exempt only when it is its NULL test.')
 NOT_DECIDED = ('reference balance inside the C helpers other than the slot protocol of INOUT, and on error paths of the generated C other than the argument-unpacking exits and the function error label '
                '(needs the running refnanny); ordering of emitted error checks relative to decrefs outside G7; '
                'null-safety of conditional acquisitions other than the argument entries covered by C35-ARGNULL; '
@@ -52,6 +56,9 @@ def run(ctx):
     # seventh round (rules/s7C35.py): borrowed results in owned slots; cleanup label covering the whole life of an unmanaged owned temp
     from ..rules import s7C35
     rules += s7C35.rules(ctx)
+    # eighth round (rules/s8C35.py): error-exit emitters derived from CCodeWriter (also used by BORROW / SETUP); path-sensitive G7 over that set
+    from ..rules import s8C35
+    rules += s8C35.rules(ctx)
     return rules
 
 
@@ -86,6 +93,13 @@ MUTATIONS += [
     ('Cython/Compiler/Nodes.py', 'seed C35j: __enter__ call generated before the cleanup label of exit_var is installed; label put back early / installed late; cleanup without the release / releasing another temp / '
      'under the wrong label_used test / removed; extra error exit before the label', 'C35-SETUP (G7 for the last)'),
 ]
+MUTATIONS += [
+    # eighth round: mutants/C35/h8-*
+    ('Cython/Compiler/ExprNodes.py, Nodes.py, Code.py, ModuleNode.py', 'seed C35k: put_error_if_neg moved in front of the release of the __exit__ result; the same through error_goto_if_neg in the using putln, '
+     'through an extracted helper method, through a new CCodeWriter wrapper; with_stat.exit_var released after the NULL check of the call; star-except: unconditional exit before the decref of the prepared group, '
+     'pattern tuple released after the conditional jump / after a put_error_if_neg; put_error_if_neg before the cleanup label of WithStatNode; put_error_if_neg before the incref of the borrowed module dict',
+     'C35-HELD / C35-SETUP / C35-BORROW (G7 for the error_goto forms)'),
+]
 SILENT_EDITS = [
     'error-label cleanup: outer guard replaced by `if True:`; by `if not (self.star_arg is None and self.starstar_arg is None and not has_kwonly_args):` with the star release written inline',
     'error-label cleanup block extracted into a new method `_release_star_args(code)` (alias `kw = self.starstar_arg`, early `return` when absent)',
@@ -94,4 +108,6 @@ SILENT_EDITS = [
     '_get_decref_code; De Morgan on the argument release guard; the argument incref loop extracted into a helper with regrouped tests; error-label cleanup through a local / extracted into a helper method; '
     '__Pyx_XCLEAR / __Pyx_XDECREF with a positive NULL test and renamed local; reordered free-list updates; delref computing the remaining count first; generate_disposal_code with an early return; '
     'disposal + free_temps called through a loop over bound methods',
+    'eighth round (mutants/C35/ok8-*): WithExitCallNode with if/else branches that release before the check; renamed local + early return + putln(error_goto_if_neg) after the release; truth test and release '
+    'extracted into a helper; StarExceptPrepAndReraiseNode with reordered independent statements, a separate NULL-test putln and a renamed local',
 ]
